@@ -250,6 +250,21 @@ Definition op_sxg_history (args : list sx) : sx :=
   | _ => bad_args
   end.
 
+(* sxg_read_verify_history bytes tsec tnsec statustab fetchtab x509tab sigtab:
+   ReadExchange, Verify, Verify again, Write.  Verify must not change the exchange. *)
+Definition op_sxg_read_verify_history (args : list sx) : sx :=
+  match args with
+  | [SB bs; SZ tsec; SZ tnsec; SL sk; SL ft; SL xt; SL st] =>
+      match read bs with
+      | Ok e =>
+          let known := fun code => existsb (fun s => match s with SL [SZ c; SZ b] => (c =? code)%Z && negb (b =? 0)%Z | _ => false end) sk in
+          let v := verdict_sx (verify sha256 (x509_of xt) (sig_of st) known (fetch_of ft) e tsec tnsec) in
+          if e_taint e then unknown_sx else SL [v; v; sx_bytes_R (write e)]
+      | _ => SL [sym "invalid"]
+      end
+  | _ => bad_args
+  end.
+
 Definition op_bigendian (args : list sx) : sx :=
   match args with
   | [SZ n; SZ size] => sx_bytes_R (be_encode n (Z.to_N size))
@@ -281,6 +296,7 @@ Definition dispatch_sxg (op : bytes) (args : list sx) : option sx :=
   else if bytes_eqb op (s2b "sxg_read_verify") then Some (op_sxg_read_verify args)
   else if bytes_eqb op (s2b "sxg_read_edit_verify") then Some (op_sxg_read_edit_verify args)
   else if bytes_eqb op (s2b "sxg_history") then Some (op_sxg_history args)
+  else if bytes_eqb op (s2b "sxg_read_verify_history") then Some (op_sxg_read_verify_history args)
   else if bytes_eqb op (s2b "bigendian") then Some (op_bigendian args)
   else if bytes_eqb op (s2b "url") then Some (op_url args)
   else None.
